@@ -32,6 +32,8 @@ pub enum SAct {
     SetLimit(u8),
     /// the application calls flush_outgoing_writes()
     Flush,
+    /// the application answers every outstanding request in one enqueue_responses() call
+    RespondAll(u8),
 }
 
 pub fn enc(a: SAct) -> u64 {
@@ -47,6 +49,7 @@ pub fn enc(a: SAct) -> u64 {
         SAct::Kill => 9 << 32,
         SAct::SetLimit(l) => 10 << 32 | l as u64,
         SAct::Flush => 11 << 32,
+        SAct::RespondAll(s) => 12 << 32 | s as u64,
     }
 }
 pub fn dec(x: u64) -> SAct {
@@ -63,6 +66,7 @@ pub fn dec(x: u64) -> SAct {
         9 => SAct::Kill,
         10 => SAct::SetLimit(lo as u8),
         11 => SAct::Flush,
+        12 => SAct::RespondAll(lo as u8),
         _ => panic!("bad action"),
     }
 }
@@ -598,6 +602,40 @@ impl<'a> World<'a> {
                 }
                 self.note("Kill", json!({}));
                 self.log.push("kill".into());
+            }
+            SAct::RespondAll(sz) => {
+                let size = self.cfg.resp_sizes[sz as usize % self.cfg.resp_sizes.len()];
+                let mut batch = vec![];
+                let mut desc = vec![];
+                for o in std::mem::take(&mut self.outstanding) {
+                    let (c, k) = (o.client, o.seq);
+                    if self.clients[c].closed {
+                        self.facts |= 1 << 7;
+                    }
+                    batch.push(o.sreq.process(|req| {
+                        let mut r = Response::new(req.http_version(), StatusCode::OK);
+                        let mut body = format!("c{}r{}:", c, k).into_bytes();
+                        while body.len() < size {
+                            body.push(b'x');
+                        }
+                        r.set_body(Body::new(body));
+                        r
+                    }));
+                    self.clients[c].supplied.push((k, size));
+                    if self.clients[c].shut_rd {
+                        self.clients[c].answered_after_shut_rd = true;
+                    }
+                    self.total_supplied += 1;
+                    desc.push(format!("c{}r{}", c, k));
+                }
+                let r = util::catch(|| self.server.as_mut().unwrap().enqueue_responses(batch));
+                self.log.push(format!("respond-all {:?} size {}", desc, size));
+                self.note(&format!("RespondAll({:?}, body {} bytes) via enqueue_responses", desc, size), json!({"result": format!("{:?}", r.as_ref().map(|x| x.as_ref().map(|_| ()).map_err(|e| format!("{:?}", e))))}));
+                match r {
+                    Err(p) => self.fail("panic", format!("HttpServer::enqueue_responses panicked: {}", p)),
+                    Ok(Err(e)) => self.fail("respond-failed", format!("HttpServer::enqueue_responses returned Err({:?})", e)),
+                    Ok(Ok(())) => {}
+                }
             }
             SAct::Flush => {
                 let r = util::catch(|| self.server.as_mut().unwrap().flush_outgoing_writes());
@@ -1200,6 +1238,9 @@ impl<'a> World<'a> {
             for s in 0..self.cfg.resp_sizes.len() {
                 v.push(SAct::Respond(i as u8, s as u8));
             }
+        }
+        if self.outstanding.len() >= 2 && self.cfg.respond_any {
+            v.push(SAct::RespondAll(0));
         }
         if self.cfg.kill_action && self.kill.is_some() {
             v.push(SAct::Kill);
